@@ -29,7 +29,8 @@ Theorem c20_sync_returns_scripted : forall s m,
   r_ret (snd (step_sync s m)) = sync_expected s m /\
   r_rep (snd (step_sync s m)) = deviation (hd_error (exps s)) m /\
   r_touch (snd (step_sync s m)) = [sync_touch_expected s m] /\
-  exps (fst (step_sync s m)) = tl (exps s).
+  exps (fst (step_sync s m)) = tl (exps s) /\
+  r_checked (snd (step_sync s m)) = sync_checks_expected s m.
 Proof. exact sync_returns_scripted. Qed.
 Print Assumptions c20_sync_returns_scripted.
 
@@ -50,7 +51,7 @@ Print Assumptions c20_sync_batch_first_failure.
 
 Theorem c20_sync_batch_insufficient : forall s ms, (length (exps s) < length ms)%nat ->
   step_batch s ms = (s, {| r_ret := SErr err_out_of_expectations; r_rep := [RepInsufficient];
-                            r_touch := map (fun _ => untouched) ms; r_asked := [] |}).
+                            r_touch := map (fun _ => untouched) ms; r_asked := []; r_checked := [] |}).
 Proof. exact sync_batch_insufficient. Qed.
 Print Assumptions c20_sync_batch_insufficient.
 
